@@ -249,6 +249,7 @@ pub enum MapCall {
 thread_local! {
     static MAP_LOG: RefCell<Option<Vec<MapCall>>> = RefCell::new(None);
     static MAP_FAIL: Cell<Option<(usize, i32)>> = Cell::new(None);
+    static MAP_FAIL_STICKY: Cell<bool> = Cell::new(false);
 }
 
 /// Starts (or restarts) logging the mapping calls of the current thread.
@@ -266,6 +267,13 @@ pub fn take_map_log() -> Vec<MapCall> {
 /// The failure is one-shot. Passing [`None`] disarms it.
 pub fn fail_mmap_after(setting: Option<(usize, i32)>) {
     MAP_FAIL.with(|f| f.set(setting));
+    MAP_FAIL_STICKY.with(|f| f.set(false));
+}
+
+/// Like [`fail_mmap_after`], but that call and every later one fail until this is disarmed with [`None`].
+pub fn fail_mmap_from(setting: Option<(usize, i32)>) {
+    MAP_FAIL.with(|f| f.set(setting));
+    MAP_FAIL_STICKY.with(|f| f.set(setting.is_some()));
 }
 
 fn log_map_call(call: MapCall) {
@@ -280,7 +288,7 @@ fn log_map_call(call: MapCall) {
 pub mod sys {
     pub use libc::*;
 
-    use super::{log_map_call, MapCall, MAP_FAIL};
+    use super::{log_map_call, MapCall, MAP_FAIL, MAP_FAIL_STICKY};
 
     /// See `libc::mmap`.
     ///
@@ -290,7 +298,7 @@ pub mod sys {
     pub unsafe fn mmap(addr: *mut c_void, len: size_t, prot: c_int, flags: c_int, fd: c_int, offset: off_t) -> *mut c_void {
         let refuse = MAP_FAIL.try_with(|f| {
             match f.get() {
-                Some((0, errno)) => { f.set(None); Some(errno) },
+                Some((0, errno)) => { if !MAP_FAIL_STICKY.try_with(|s| s.get()).unwrap_or(false) { f.set(None); } Some(errno) },
                 Some((calls, errno)) => { f.set(Some((calls - 1, errno))); None },
                 None => None,
             }
